@@ -21,7 +21,7 @@ func main() {
 		fmt.Fprintln(os.Stderr, "usage: vcheck <ID>|worker|replay|list ...")
 		os.Exit(2)
 	}
-	opt := map[string]string{"tier": "quick", "seed": "0", "workers": "16", "shard": "0", "nshards": "1", "out": "", "soft": "0"}
+	opt := map[string]string{"tier": "quick", "seed": "0", "workers": "16", "shard": "0", "nshards": "1", "out": "", "soft": "0", "reps": "0"}
 	if t := os.Getenv("VERIF_TIER"); t == "quick" || t == "thorough" {
 		opt["tier"] = t
 	}
@@ -50,6 +50,19 @@ func main() {
 		for _, id := range core.IDs() {
 			fmt.Println(id, core.Lookup(id).Title)
 		}
+	case "race-pass":
+		if core.RacePass == nil {
+			fmt.Fprintln(os.Stderr, "race-pass needs the instrumented (verif-tagged) build")
+			os.Exit(2)
+		}
+		reps := atoi("reps")
+		if reps <= 0 {
+			reps = 300
+		}
+		if bad := core.RacePass(reps); bad > 0 {
+			os.Exit(1)
+		}
+		fmt.Println("race-pass: bodies completed")
 	case "replay":
 		if len(pos) < 2 {
 			os.Exit(2)
